@@ -320,11 +320,13 @@ def path_subpath_start(prog, chk):
         chk.anchor_missing("A15.path-subpath", "PathParser::process_instruction not found")
         return
     chk.touch(b)
-    sw = [(x, b.term(x)) for x in b.reachable if b.term(x)["k"] == "switch" and b.term(x).get("ty") == "char" and len(b.term(x)["vals"]) >= 10]
-    if len(sw) != 1:
-        chk.anchor_missing("A15.path-subpath", f"process_instruction: expected one dispatch on the command letter, found {len(sw)}")
+    sw = [(x, b.term(x)) for x in b.reachable if b.term(x)["k"] == "switch" and b.term(x).get("ty") == "char" and len(b.term(x)["vals"]) >= 2]
+    if not sw:
+        chk.anchor_missing("A15.path-subpath", "process_instruction: no dispatch on the command letter found")
         return
-    sx, st = sw[0]
+    sx = min(x for x, _t in sw)
+    # every (letter, arm) edge of the dispatches on the command letter (one `match`, or several on the same letter)
+    arms = [(v, tgt) for _x, st_ in sw for v, tgt in st_["vals"]]
 
     def resets(body):
         """does every path through this PathParser method assign self.start_pos?"""
@@ -343,15 +345,25 @@ def path_subpath_start(prog, chk):
     letters = set()
     bad = []
     for x in sites:
-        vs = {v for v, tgt in st["vals"] if tgt == x or b.dominates(tgt, x)}
+        vs = {v for v, tgt in arms if tgt == x or b.dominates(tgt, x)}
         if not vs:
             bad.append(b.where(x))
         letters |= vs
     names = "".join(sorted(chr(v) for v in letters))
-    chk.ob(bool(sites) and not bad and letters == {ord("M"), ord("m")}, "A15.path-subpath", "process_instruction:start", b.where(sx), "the point closepath returns to is reset by M and m, and by no other command", f"the subpath start that `z` returns to is reset under the commands '{names}' ({len(sites)} site(s){', outside the dispatch: ' + ', '.join(bad) if bad else ''}) - it must be every moveto (M, m) and nothing else: after a second subpath (or a lineto) `z` returns to the wrong point, and a following relative command moves the path's extent")
+    if sites and bad and letters <= {ord("M"), ord("m")}:
+        # a reset that is not inside an arm of a dispatch on the letter (it may hang on a value derived from the letter)
+        chk.undecided("A15.path-subpath", "process_instruction:start", b.where(sx), f"the subpath start is also reset outside the arms of the dispatch on the command letter ({', '.join(bad)}): which commands reach it is not read here")
+    else:
+        chk.ob(bool(sites) and not bad and letters == {ord("M"), ord("m")},     "A15.path-subpath", "process_instruction:start", b.where(sx), "the point closepath returns to is reset by M and m, and by no other command", f"the subpath start that `z` returns to is reset under the commands '{names}' ({len(sites)} site(s){', outside the dispatch: ' + ', '.join(bad) if bad else ''}) - it must be every moveto (M, m) and nothing else: after a second subpath (or a lineto) `z` returns to the wrong point, and a following relative command moves the path's extent")
     # the closepath arm takes its target from start_pos
-    zt = {tgt for v, tgt in st["vals"] if v in (ord("Z"), ord("z"))}
-    reads = [x for (x, i, node) in R.place_reads(b, (".start_pos",)) if any(x == z or b.dominates(z, x) for z in zt)]
+    zt = {tgt for v, tgt in arms if v in (ord("Z"), ord("z"))}
+    all_reads = [x for (x, i, node) in R.place_reads(b, (".start_pos",))]
+    reads = [x for x in all_reads if any(x == z or b.dominates(z, x) for z in zt)]
+    other_arm = [x for x in all_reads if x not in reads and any((tgt == x or b.dominates(tgt, x)) for v, tgt in arms if v not in (ord("Z"), ord("z")))]
+    if not reads and all_reads and not other_arm:
+        # the start is read, but not inside an arm of the letter dispatch (e.g. under a value the Z arm produced)
+        chk.undecided("A15.path-subpath", "process_instruction:close", b.where(sx), "the recorded subpath start is read outside the arms of the dispatch on the command letter: which command that read serves is not read here")
+        return
     chk.ob(bool(reads), "A15.path-subpath", "process_instruction:close", b.where(sx), "Z / z move to the recorded subpath start", "the closepath arm no longer reads the recorded subpath start")
 
 
